@@ -4,15 +4,15 @@ import (
 	"bytes"
 	"encoding/json"
 	"fmt"
+	"github.com/scrapli/scrapligo/driver/generic"
 	"io"
 	"net"
 	"os"
-	"syscall"
-	"github.com/scrapli/scrapligo/driver/generic"
 	"regexp"
 	"strings"
 	"sync"
 	"sync/atomic"
+	"syscall"
 	"time"
 
 	"github.com/scrapli/scrapligo/channel"
